@@ -219,7 +219,7 @@ def worker(kp, job):
     elif kind == 'gen':
         seed, idx = payload
         rng = random.Random(seed * 1000003 + idx)
-        g = docs.gen_doc(rng, free_headers=True)
+        g = docs.gen_doc(rng, free_headers=True, early_end=(0.25 if idx % 3 == 1 else 0.0))
         text = g.text
         # literal cells into the non-kern spines
         if rng.random() < 0.5:
